@@ -31,6 +31,9 @@ type e2eOpts struct {
 	MaxChunk  int    `json:"maxchunk"`
 	Progress  bool   `json:"progress"`
 	TmuxJunk  bool   `json:"tmuxjunk"`
+	// NoDirClient: the client's ACT is rewritten in flight to one of a client without directory support
+	// (a server started with -d / -r refuses it after the action, before any configuration)
+	NoDirClient bool     `json:"no_dir_client,omitempty"`
 	Src       []string `json:"-"`
 	Dst       string   `json:"-"`
 }
@@ -164,6 +167,10 @@ func e2eRun(o e2eOpts, w *e2eWire, h *e2eHooks) *e2eResult {
 		}
 	}
 	w.winNL = o.Windows
+	w.actNoDir = o.NoDirClient
+	if o.NoDirClient && w.actProt < 0 {
+		w.actProt = 4
+	}
 	sink := &e2eSink{}
 	cols := int32(0)
 	f := &TrzszFilter{clientOut: sink, serverIn: e2eWC{w.c2s}, options: TrzszOptions{TerminalColumns: 100}}
